@@ -39,3 +39,17 @@ pub fn str_from_utf8_stub(v: &[u8]) -> Result<&str, std::str::Utf8Error> {
 pub fn tlv_code_display_stub(_c: &cfdp_core::pdu::MetadataTLVFieldCode, _f: &mut std::fmt::Formatter<'_>) -> std::fmt::Result {
     Ok(())
 }
+
+/// S7: `PDUPayload::encode` -> the same two-arm dispatch, matching BY REFERENCE. Moving the inner `Operations` value out
+/// of the niche-optimised `PDUPayload` enum makes CBMC lose the (concrete) variant and execute every encoder on
+/// garbage; the by-reference form keeps it. The replaced body is `match self { Directive(o) => o.encode(f),
+/// FileData(d) => d.encode(f) }`.
+pub fn payload_encode_stub(p: cfdp_core::pdu::PDUPayload, f: cfdp_core::pdu::FileSizeFlag) -> Vec<u8> {
+    use cfdp_core::pdu::{FSSEncode, PDUPayload, SegmentEncode};
+    let out = match &p {
+        PDUPayload::Directive(o) => o.clone().encode(f),
+        PDUPayload::FileData(d) => d.clone().encode(f),
+    };
+    std::mem::forget(p);
+    out
+}
